@@ -400,10 +400,62 @@ func c09EnumStrD(named *string, vals []string, disps []*sx.Node) *sx.Node {
 	return sx.L(sx.A("enum_str"), dOptS(named), l)
 }
 
+// c09MetaFragments: character sequences a unit name may carry (the meta-schema puts no constraint on unit names) that
+// are special to a regular-expression engine.  The first group is NOT a valid regular expression on its own
+// (unbalanced group / class, dangling repetition operator, trailing backslash, unknown escape / class, unterminated
+// group name); the second group is valid but means something other than itself.  The unit parser must take every
+// name literally, in each of the eight positions (base unit and multiplier; short / long; singular / plural).
+var c09MetaFragments = []string{
+	"(", ")", "[", "*", "+", "?", "\\", "(?P<", "[a-", "\\p{Xx}", "\\q", "(s)(", "a**", "[]", "(?",
+	".", "|", "^", "$", "{", "}", "]", "(s)", "[ab]", "a*", ".+", "\\d", "a|", "^$",
+}
+
+// metaUnits: a units definition (base unit and 1-3 multipliers) in which every name has a 50 % chance of carrying one of
+// c09MetaFragments at its start, at its end or in the middle (and at least one name of the base unit and of one
+// multiplier does, at a position drawn from the four of that unit).  Stems are distinct two-letter
+// words, so no name is used twice and no name starts with a digit or ends in white space.
+func (g *dgen) metaUnits() unitsD {
+	r := g.r
+	n := 0
+	name := func(force bool) string {
+		stem := string([]byte{'q' + byte(n/20), 'a' + byte(n%20)})
+		n++
+		if !force && r.Bool() {
+			return stem
+		}
+		f := pick(r, c09MetaFragments)
+		switch r.Intn(3) {
+		case 0:
+			return f + stem
+		case 1:
+			return stem + f
+		}
+		return stem[:1] + f + stem[1:]
+	}
+	unit := func(forced int) unitD {
+		return unitD{name(forced == 0), name(forced == 1), name(forced == 2), name(forced == 3)}
+	}
+	d := unitsD{base: unit(r.Intn(4)), mults: map[int64]unitD{}}
+	mpool := []int64{2, 10, 60, 1000, 1024, 3600, 1 << 20}
+	nm := 1 + r.Intn(3)
+	for i := 0; i < nm; i++ {
+		forced := -1
+		if i == 0 {
+			forced = r.Intn(4)
+		}
+		d.mults[mpool[(r.Intn(3)+3*i)%len(mpool)]] = unit(forced)
+	}
+	return d
+}
+
 func (g *dgen) units() *unitsD {
 	r := g.r
-	if r.Chance(60) {
+	if r.Chance(50) {
 		u := unitsFromSDK(pick(r, builtinUnits))
+		return &u
+	}
+	if r.Chance(50) {
+		u := g.metaUnits()
 		return &u
 	}
 	u := genUnits(r)
